@@ -131,3 +131,48 @@ Proof.
   unfold check_lin. destruct (lin (S (List.length (cc_ops c))) lin_budget (cc_final c) b0 (cc_ops c)) as [bud r] eqn:E.
   cbn [snd]. destruct r; try discriminate. intros _. eapply lin_complete; eauto.
 Qed.
+
+(* ================= what an empty mismatch list MEANS =================
+   The correspondence evaluates [Run_Conc.mismatches cases] with vm_compute and requires []; this is literally the left-hand
+   side of the equivalence below.  For every case: (1) the delivery oracle accepts every (Send, pipeline version) count --
+   its rules are the verdicts ConcProofs.send_delivery_bounds / send_delivery_some prove for every timed history consistent
+   with the observed intervals; (2) the calls are linearizable: some permutation in which every call is minimal, w.r.t.
+   "returned before the other was invoked", among those that follow it, replayed on Broker.step from the empty registry,
+   reproduces every observed result and ends in the observed final registry; (3) the search reached that conclusion within
+   its budget of lin_budget nodes (an out-of-budget search yields the KLinBudget entry, so the list is not empty then: the
+   budget never turns a rejected history into an accepted one, nor the other way round). *)
+Definition delivery_oracle_ok (c : ccase) : Prop :=
+  check_sends (kops_of (cc_ops c)) (failed_taps (cc_ops c)) 0%N (cc_sends c) = [].
+Definition search_conclusive (c : ccase) : Prop :=
+  snd (lin (S (List.length (cc_ops c))) lin_budget (cc_final c) b0 (cc_ops c)) <> LBudget.
+
+Lemma flat_map_nil {A B} (f : A -> list B) l : flat_map f l = [] <-> Forall (fun x => f x = []) l.
+Proof.
+  induction l as [|a t IH]; cbn; [split; [constructor|reflexivity]|].
+  split.
+  - intros H. apply app_eq_nil in H as [Ha Ht]. constructor; [exact Ha|apply IH; exact Ht].
+  - intros H. inversion H; subst. rewrite H2. cbn. apply IH. assumption.
+Qed.
+Lemma map_nil_iff {A B} (f : A -> B) l : map f l = [] <-> l = [].
+Proof. destruct l; cbn; split; intros H; try reflexivity; discriminate. Qed.
+
+Lemma check_lin_iff c : check_lin c = [] <-> linearizable (cc_final c) b0 (cc_ops c) /\ search_conclusive c.
+Proof.
+  unfold check_lin, search_conclusive.
+  destruct (lin (S (List.length (cc_ops c))) lin_budget (cc_final c) b0 (cc_ops c)) as [bud r] eqn:E. cbn [snd].
+  destruct r.
+  - split; [intros _; split; [eapply lin_sound; eauto|discriminate]|reflexivity].
+  - split; [discriminate|]. intros [Hl _]. exfalso. exact (lin_complete _ _ _ _ _ _ E Hl).
+  - split; [discriminate|]. intros [_ Hc]. congruence.
+Qed.
+
+Theorem verdict_iff cs :
+  mismatches cs = [] <->
+  Forall (fun c => delivery_oracle_ok c /\ linearizable (cc_final c) b0 (cc_ops c) /\ search_conclusive c) cs.
+Proof.
+  unfold mismatches. rewrite flat_map_nil. split; intros H; eapply Forall_impl; [|exact H| |exact H]; cbn beta; intros c Hc.
+  - apply map_nil_iff in Hc. unfold run_ccase in Hc. apply app_eq_nil in Hc as [Hd Hl].
+    split; [exact Hd|]. apply check_lin_iff. exact Hl.
+  - destruct Hc as [Hd Hl]. apply map_nil_iff. unfold run_ccase. unfold delivery_oracle_ok in Hd. rewrite Hd. cbn.
+    apply check_lin_iff. exact Hl.
+Qed.
